@@ -2,6 +2,7 @@ package props
 
 import (
 	"fmt"
+	"os"
 
 	kv "github.com/XiXi-2024/xixi-kv"
 	"verif/harness/core"
@@ -17,7 +18,7 @@ func init() { core.Register(c01{}) }
 func (c01) ID() string    { return "C01" }
 func (c01) Level() string { return "exploration" }
 func (c01) Rule() string {
-	return "cases = seed-determined (configuration, op sequence) pairs from the boundary-aware generator over 3..12 keys; every mutating step is followed by a Get of the touched keys and every 8th step by a full dump (ListKeys, Get*, Fold, Stat.KeyNum) compared with the reference map; one extra case writes > 512 MiB into a single memory-mapped data file (6..9 MiB values) so that the mapping has to be re-established beyond the first 512 MiB unit, then dumps and restarts; a further family populates 4 Ki..280 K live keys (sizes at and around powers of two and round decimal numbers) with tiny values and compares a full dump after the population, after n/8 overwrites and deletes, after one batch of 3000 entries, after a restart, after a Merge, after the restart that adopts it through the hint file and after writes on top; a case is non-trivial when it performed >=1 rotation or wrote >=1 multi-block record, and >=1 overwrite or delete of an existing key; distinct = hash of (config, executed op list)"
+	return "cases = seed-determined (configuration, op sequence) pairs from the boundary-aware generator over 3..12 keys; every mutating step is followed by a Get of the touched keys and every 8th step by a full dump (ListKeys, Get*, Fold, Stat.KeyNum) compared with the reference map; one extra case writes > 512 MiB into a single memory-mapped data file (6..9 MiB values) so that the mapping has to be re-established beyond the first 512 MiB unit, then dumps, takes a Backup (which un-maps and shrinks the file), reads the record at offset 0, dumps again and restarts; a further family populates 4 Ki..280 K live keys (sizes at and around powers of two and round decimal numbers) with tiny values and compares a full dump after the population, after n/8 overwrites and deletes, after one batch of 3000 entries, after a restart, after a Merge, after the restart that adopts it through the hint file and after writes on top; a case is non-trivial when it performed >=1 rotation or wrote >=1 multi-block record, and >=1 overwrite or delete of an existing key; distinct = hash of (config, executed op list)"
 }
 func (c01) Assumptions() []string {
 	return []string{"reference map model is the specification of Get/ListKeys/Fold", "values compared with bytes.Equal (nil == empty)", "sequential use only (concurrency is C08/C09)"}
@@ -237,6 +238,7 @@ func runMmapRemap(c core.Case, sc seqCase, w *core.Worker) core.Result {
 	r := core.NewRng(c.Seed)
 	keys := [][]byte{[]byte("big0"), []byte("big1"), []byte("big2"), []byte("small")}
 	var written int64
+	s.Exec(core.Op{Kind: "put", Key: []byte("first"), VLen: 100, VSeed: r.U64() | 1}) // stays at offset 0
 	for i := 0; written < 540<<20 && !s.Dead; i++ {
 		k := keys[i%3]
 		n := r.Range(6<<20, 9<<20)
@@ -250,6 +252,24 @@ func runMmapRemap(c core.Case, sc seqCase, w *core.Worker) core.Result {
 	res.Add("mmap_bytes_written_in_one_file", written)
 	if !s.Dead {
 		s.CheckDump("after crossing the 512 MiB mapping unit")
+	}
+	if !s.Dead {
+		// Backup un-maps and shrinks every file; the next access re-establishes the mapping.
+		// Make that access a READ at offset 0 of a file that is larger than one mapping unit.
+		bk := w.Dir("bk")
+		var err error
+		pv, st := core.Safe(func() { err = s.DB.Backup(bk) })
+		os.RemoveAll(bk)
+		if pv != nil || err != nil {
+			res.Violate(fmt.Sprintf("Backup of a database with a > 512 MiB memory-mapped file failed: %v %v", pv, err), map[string]string{"class": "mmap-remap", "kind": "backup"}, st)
+			s.Dead = true
+		} else {
+			s.CheckGet([]byte("first"))
+			if !s.Dead {
+				s.CheckDump("after Backup and a read at offset 0 of the > 512 MiB file")
+			}
+			res.Add("backups_of_a_file_beyond_one_mapping_unit", 1)
+		}
 	}
 	if !s.Dead {
 		s.Exec(core.Op{Kind: "restart"})
